@@ -842,7 +842,15 @@ void TypeChecker::visitEdge(edge_t& edge)
     }
 }
 
-void TypeChecker::visitInstanceLine(instance_line_t& instance) { DocumentVisitor::visitInstanceLine(instance); }
+void TypeChecker::visitInstanceLine(instance_line_t& instance)
+{
+    DocumentVisitor::visitInstanceLine(instance);
+
+    /* An instance line binds the parameters of its template like an instantiation does. Its symbol has the
+     * primitive type INSTANCE_LINE, so the bound parameters are those after the unbound ones.
+     */
+    checkArguments(instance, instance.unbound);
+}
 
 void TypeChecker::visitMessage(message_t& message)
 {
@@ -936,9 +944,13 @@ void TypeChecker::visitInstance(instance_t& instance)
         checkType(type[i]);
     }
 
-    /* Check arguments.
-     */
-    for (size_t i = type.size(); i < type.size() + instance.arguments; i++) {
+    checkArguments(instance, type.size());
+}
+
+/** Check the arguments bound to the parameters first, first + 1, .. of the instance. */
+void TypeChecker::checkArguments(instance_t& instance, size_t first)
+{
+    for (size_t i = first; i < first + instance.arguments && i < instance.parameters.get_size(); i++) {
         symbol_t parameter = instance.parameters[i];
         expression_t argument = instance.mapping[parameter];
 
